@@ -279,8 +279,8 @@ def redundant_parens(text, rng):
             for n in kids:
                 if not isinstance(n, ast.expr) or isinstance(n, (ast.Starred, ast.Slice, ast.JoinedStr, ast.FormattedValue)):
                     continue
-                if isinstance(getattr(n, "ctx", None), (ast.Store, ast.Del)):
-                    continue
+                if isinstance(getattr(n, "ctx", None), (ast.Store, ast.Del)) and (isinstance(parent, (ast.NamedExpr, ast.AnnAssign)) or rng.random() < .5):
+                    continue   # targets too (`for (x) in y`, `(a), (b) = c`, `del (x)`), except where the grammar forbids them
                 if isinstance(parent, (ast.JoinedStr, ast.FormattedValue, ast.AnnAssign, ast.keyword)) and field in ("values", "format_spec", "target"):
                     continue
                 if isinstance(parent, (ast.MatchValue, ast.MatchMapping, ast.MatchClass, ast.withitem, ast.Global, ast.Nonlocal, ast.ImportFrom)):
